@@ -605,6 +605,15 @@ impl NISPSignaturePoK {
         let mut idx: usize = 0;
         let mut idx_revealed_msgs: usize = 0;
 
+        // the commitments are group elements: only canonical representatives in (0, N) are accepted,
+        // otherwise C + k*N would be a different proof of the same statement
+        if [&self.Cx, &self.Cv, &self.Cw, &self.Ce]
+            .iter()
+            .any(|c| **c <= 0 || *c >= N)
+        {
+            return false;
+        }
+
         for i in 0..n_signed_messages {
             if unrevealed_message_indexes.contains(&i) {
                 t_Cx = t_Cx * Integer::from(a_bases.0[i].pow_mod_ref(&self.s_5[idx], N).unwrap());
